@@ -282,6 +282,38 @@ omit [DecidableEq V] in
 theorem scan_sorted_partial (cfg : Cfg K V) (L : OrderLaws cfg) (ls : List (List V))
     (h : ∀ l ∈ ls, SortedK cfg l) : SortedK cfg (mergeK cfg ls) := sortedK_mergeK cfg L ls h
 
+/-- **delete-where rewrites into sorted objects.**  A delete-where is accepted by the model only
+    if every object it wrote is non-empty and holds its values in pool-key order (and together
+    they hold exactly the kept values): the survivors reach the rewriting `lake.Writer` one
+    whole object after another — not in key order when the touched objects overlap — so the
+    writer must sort each buffer (`load_object_sorted`).  The harness compares this step with
+    the real code also with `compiler.Parallelism = 1`, where all objects go through one
+    deleter thread. -/
+theorem deleteWhere_objects_sorted (cfg : Cfg K V) (s s' : State K V) (b : Nat) (keep : V → Bool)
+    (parts : List (List V)) (h : deleteWhere cfg s b keep parts = .ok s') :
+    ∀ p ∈ parts, p ≠ [] ∧ isSorted cfg p = true := by
+  have key : ∃ kept, validParts cfg kept parts = true := by
+    unfold deleteWhere at h
+    split at h
+    · cases h
+    · split at h
+      · cases h
+      · split at h
+        · cases h
+        · rename_i ids kept _
+          split at h
+          · cases h
+          · split at h
+            · cases h
+            · rename_i hv
+              exact ⟨kept, by simpa using hv⟩
+  obtain ⟨kept, hv⟩ := key
+  intro p hp
+  unfold validParts at hv
+  simp only [Bool.and_eq_true, List.all_eq_true] at hv
+  have := hv.1 p hp
+  exact ⟨by intro he; rw [he] at this; simp at this, this.2⟩
+
 omit [DecidableEq V] in
 /-- every object a load writes holds its values in pool-key order -/
 theorem load_object_sorted (cfg : Cfg K V) (L : OrderLaws cfg) (buf : List V) :
